@@ -4,6 +4,7 @@ package c08
 
 import (
 	"fmt"
+	"os"
 	"strings"
 	"testing"
 
@@ -161,6 +162,7 @@ type dfs struct {
 	pruned   int
 	shard    int
 	shards   int
+	first    int
 }
 
 // enabled enumerates every action of the smallest universe (fault-free).
@@ -222,7 +224,11 @@ func (d *dfs) explore(depth int, path []act) {
 		return true, run
 	}
 	for i, a := range d.enabled() {
-		if depth == 0 && i%d.shards != d.shard {
+		// Shards partition the tree by the first TWO actions (finer than by the first: subtrees differ a lot in size).
+		if depth == 0 {
+			d.first = i
+		}
+		if depth == 1 && (d.first*31+i)%d.shards != d.shard {
 			continue
 		}
 		w.lastRun = nil
@@ -251,6 +257,9 @@ func TestVerifC08Exhaustive(t *testing.T) {
 	depthFree, depthFault := 5, 3
 	if verifkit.Tier() == "thorough" {
 		depthFree, depthFault = 7, 4
+	}
+	if v := os.Getenv("VERIF_C08_DEPTHS"); v != "" { // experiments only
+		fmt.Sscanf(v, "%d,%d", &depthFree, &depthFault)
 	}
 	shard, shards := verifkit.Shard()
 	for _, fg := range []bool{false, true} {
